@@ -1,5 +1,6 @@
 CONSTANTS
   Letters = {97}
+  Extra = {}
   MaxKeys = 8
   MaxEnters = 3
   EmitOn = TRUE
